@@ -23,6 +23,7 @@ def step (line : String) : String :=
   | "intervals" :: rest => drvIntervals rest
   | "polygons" :: rest => drvPolygons rest
   | "ad" :: rest => drvAd rest
+  | "d1def" :: rest => drvD1Def rest
   | "sweep" :: rest => drvSweep rest
   | "sweepq" :: rest => drvSweepQ rest
   | "api2d" :: rest => drvApi2d rest
